@@ -25,15 +25,18 @@ News(d) == IF d = 2 THEN {<<7, 7>>, <<2, 1>>, <<-3, 2>>} ELSE {<<4, 4, 4>>, <<1,
 Vol2(P) == IF Len(CHOOSE x \in P : TRUE) = 2 /\ FullDim2(P) THEN PolyArea2(P) ELSE -1
 Dist2(p, q) == Dot(VSub(p, q), VSub(p, q))
 FlatLen2(P) == IF Len(CHOOSE x \in P : TRUE) = 2 /\ ~FullDim2(P) THEN SetMax({Dist2(p, q) : p \in P, q \in P}) ELSE -1
+(* affine dimension of the cloud: rank of the differences to one of its points (what proj_P_for_hull reports) *)
+AffDim(P) == LET sq == SortedVecs(P)
+             IN IF Len(sq) = 1 THEN 0 ELSE Rank([k \in 1..(Len(sq) - 1) |-> VSub(sq[k + 1], sq[1])])
 RECURSIVE Pow(_, _)
 Pow(k, n) == IF n = 0 THEN 1 ELSE k * Pow(k, n - 1)
 (* exact facts about the current cloud: doubled 2-D area, squared length of a flat cloud, and for zonotope-derived *)
 (* clouds (no point added) the exact volume and the mean-width coefficient (width = c_d * wcoef)                 *)
-Exact0(b) == [area2 |-> Vol2(b.P), flat2 |-> FlatLen2(b.P),
+Exact0(b) == [area2 |-> Vol2(b.P), flat2 |-> FlatLen2(b.P), affdim |-> AffDim(b.P),
               zvol |-> IF b.zono THEN ZonoVolume(b.G, b.lb, b.ub) ELSE -1,
               wcoef |-> IF b.zono THEN WidthCoef(b.lens, b.lb, b.ub) ELSE -1]
 ExactNext(e, a, P, d) ==
-  [area2 |-> Vol2(P), flat2 |-> FlatLen2(P),
+  [area2 |-> Vol2(P), flat2 |-> FlatLen2(P), affdim |-> AffDim(P),
    zvol |-> IF e.zvol < 0 \/ a.op = "addpoint" THEN -1 ELSE IF a.op = "scale" THEN e.zvol * Pow(a.a[1], d) ELSE e.zvol,
    wcoef |-> IF e.wcoef < 0 \/ a.op = "addpoint" THEN -1 ELSE IF a.op = "scale" THEN e.wcoef * a.a[1] ELSE e.wcoef]
 Init == \E b \in Bases : cloud = b.P /\ hist = <<>> /\ meta = b /\ exact = Exact0(b)
